@@ -89,6 +89,7 @@ func cmdRun(args []string) int {
 	seed := fs.Int64("seed", 1, "run seed")
 	tier := fs.String("tier", "quick", "tier")
 	logOn := fs.Bool("log", false, "print event log")
+	quiet := fs.Bool("quiet", false, "no timing line (for log comparison)")
 	if len(args) < 1 {
 		return 2
 	}
@@ -101,7 +102,9 @@ func cmdRun(args []string) int {
 			fmt.Println(l)
 		}
 	}
-	fmt.Printf("seed=%d intents=%d blocks=%d txs=%d failed=%d wall=%v nontrivial=%v\n", *seed, len(res.Intents), res.Stats.Blocks, res.Stats.Txs, res.Stats.TxsFailed, time.Since(t0), res.NonTriv)
+	if !*quiet {
+		fmt.Printf("seed=%d intents=%d blocks=%d txs=%d failed=%d wall=%v nontrivial=%v\n", *seed, len(res.Intents), res.Stats.Blocks, res.Stats.Txs, res.Stats.TxsFailed, time.Since(t0), res.NonTriv)
+	}
 	if res.CrashStr != "" {
 		fmt.Println("CRASH:", res.CrashStr)
 	}
@@ -612,7 +615,70 @@ func checkC20(tier string, seed int64, workers int, budget float64) int {
 	return 0
 }
 
+// cmdSelftest: determinism self-test. Every seed is executed in several FRESH processes at different
+// GOMAXPROCS; the complete event logs (intents, tx codes, per-block app hashes, oracle verdicts) must be
+// byte-identical.
 func cmdSelftest(args []string) int {
-	fmt.Fprintln(os.Stderr, "selftest: not built yet")
-	return 2
+	fs := flag.NewFlagSet("selftest", flag.ExitOnError)
+	seeds := fs.Int("seeds", 32, "seeds per property")
+	props := fs.String("props", "C01,C05,C06,C08,C14,C15,C17,C18", "properties")
+	reps := fs.Int("reps", 4, "fresh processes per seed")
+	if len(args) < 1 || args[0] != "determinism" {
+		fmt.Fprintln(os.Stderr, "usage: mhubsim selftest determinism [--seeds N] [--props C01,...]")
+		return 2
+	}
+	fs.Parse(args[1:])
+	self, _ := os.Executable()
+	procs := []string{"1", "4", "16", "2", "8", "3"}
+	type job struct {
+		prop string
+		seed int64
+	}
+	var jobs []job
+	for _, p := range strings.Split(*props, ",") {
+		x := uint64(len(p))*7919 + 99
+		for i := 0; i < *seeds; i++ {
+			jobs = append(jobs, job{p, int64(sim.SplitMix64(&x) >> 1)})
+		}
+	}
+	bad := 0
+	sem := make(chan struct{}, runtime.NumCPU())
+	type res struct {
+		j   job
+		ok  bool
+		msg string
+	}
+	out := make(chan res, len(jobs))
+	for _, j := range jobs {
+		j := j
+		go func() {
+			sem <- struct{}{}
+			defer func() { <-sem }()
+			var first []byte
+			for r := 0; r < *reps; r++ {
+				c := exec.Command(self, "run", j.prop, "--seed", strconv.FormatInt(j.seed, 10), "--log", "--quiet")
+				c.Env = append(os.Environ(), "GOMAXPROCS="+procs[r%len(procs)])
+				b, _ := c.Output()
+				if r == 0 {
+					first = b
+				} else if string(b) != string(first) {
+					out <- res{j, false, fmt.Sprintf("run %d (GOMAXPROCS=%s) differs from run 0: %d vs %d bytes", r, procs[r%len(procs)], len(b), len(first))}
+					return
+				}
+			}
+			out <- res{j, len(first) > 0, fmt.Sprintf("%d log bytes", len(first))}
+		}()
+	}
+	for range jobs {
+		r := <-out
+		if !r.ok {
+			bad++
+			fmt.Printf("NONDETERMINISTIC %s seed=%d: %s\n", r.j.prop, r.j.seed, r.msg)
+		}
+	}
+	fmt.Printf("determinism self-test: %d (property, seed) pairs x %d fresh processes at GOMAXPROCS %v: %d divergent\n", len(jobs), *reps, procs[:*reps], bad)
+	if bad > 0 {
+		return 1
+	}
+	return 0
 }
